@@ -154,3 +154,48 @@ def show(RG):
     for (A, rhs) in R:
         out.append('%s -> %s' % (A, ' '.join(x for (_, x) in rhs) if rhs else 'ε'))
     return '[S=%s] ' % S + ' ; '.join(out)
+
+
+def parse_tree(RG, w, rng=None):
+    """a derivation tree for w (CNF-shaped rules only: A -> BC, A -> a, A -> eps): nested tuples
+    (A, children) with children a list of subtrees or a terminal string; None if w is not derivable"""
+    D = derives(RG, w)
+
+    def build(A, i, j):
+        cands = []
+        for (B, rhs) in RG[2]:
+            if B != A:
+                continue
+            if len(rhs) == 0 and i == j:
+                cands.append((A, []))
+            elif len(rhs) == 1 and rhs[0][0] == 'T' and j == i + 1 and w[i] == rhs[0][1]:
+                cands.append((A, [rhs[0][1]]))
+            elif len(rhs) == 2 and rhs[0][0] == 'V' and rhs[1][0] == 'V':
+                for m in range(i + 1, j):
+                    if (i, m) in D.get(rhs[0][1], ()) and (m, j) in D.get(rhs[1][1], ()):
+                        cands.append((A, rhs[0][1], rhs[1][1], m))
+        if not cands:
+            return None
+        c = cands[0] if rng is None else rng.choice(cands)
+        if len(c) == 2:
+            return c
+        (A, B, C, m) = c
+        return (A, [build(B, i, m), build(C, m, j)])
+    if (0, len(w)) not in D.get(RG[3], ()):
+        return None
+    return build(RG[3], 0, len(w))
+
+
+def linearize(tree, order, rng=None):
+    """derivation (list of sentential forms, each a list of names) from a tree; order: 'leftmost' | 'rightmost' | 'random'"""
+    form = [tree]
+    out = [[tree[0]]]
+    while True:
+        idx = [i for i, x in enumerate(form) if isinstance(x, tuple)]
+        if not idx:
+            break
+        i = idx[0] if order == 'leftmost' else (idx[-1] if order == 'rightmost' else rng.choice(idx))
+        (A, children) = form[i]
+        form = form[:i] + list(children) + form[i + 1:]
+        out.append([x[0] if isinstance(x, tuple) else x for x in form])
+    return out
